@@ -2735,7 +2735,11 @@ impl KotoVm {
             (Range(r), Number(n)) if r.start().is_some() => {
                 let start = r.start().unwrap();
                 let index = self.validate_index(n, r.size())?;
-                Number((start + index as i64).into())
+                // The index is unbounded when the range has no end
+                match start.checked_add(index as i64) {
+                    Some(result) => Number(result.into()),
+                    None => return runtime_error!("index out of bounds - index: {n}"),
+                }
             }
             (Object(o), index) => o.try_borrow()?.index(&index)?,
             (unexpected_value, unexpected_index) => {
